@@ -112,8 +112,24 @@ def read_jsonl(path):
     return out
 
 
-def run_harness(res, fnd, hbin, args, out, tag, timeout):
-    rc, log = run([hbin] + args, timeout=timeout)
+def _limits():
+    # backstop for runaway allocations of the implementation (the harness watchdog acts at 10 GB resident)
+    import resource
+    try:
+        resource.setrlimit(resource.RLIMIT_AS, (48 << 30, 48 << 30))
+    except (ValueError, OSError):
+        pass
+
+
+def run_harness(res, fnd, hbin, args, out, tag, timeout, rayon=None):
+    env = env_base()
+    if rayon:
+        env["RAYON_NUM_THREADS"] = str(rayon)
+    try:
+        p = subprocess.run([hbin] + args, env=env, stdout=subprocess.PIPE, stderr=subprocess.STDOUT, timeout=timeout, preexec_fn=_limits)
+        rc, log = p.returncode, p.stdout.decode("utf-8", "replace")
+    except subprocess.TimeoutExpired as ex:
+        rc, log = 124, (ex.stdout or b"").decode("utf-8", "replace")
     recs = read_jsonl(out)
     summary = None
     arena = []
@@ -618,6 +634,12 @@ def lsp_stage(res, fnd, cases, d, max_cursors):
     if not ok:
         res.violation("vhdl_ls build failed against the current tree", {"kind": "build", "log": log[-3000:]}, no_failing_input=True)
         return
+    # memory backstop for the servers (an endless allocating loop must not take the machine down)
+    wrapper = os.path.join(d, "vhdl_ls_limited.sh")
+    with open(wrapper, "w") as f:
+        f.write("#!/bin/sh\nulimit -v 8000000\nexec %s \"$@\"\n" % binpath)
+    os.chmod(wrapper, 0o755)
+    binpath = wrapper
     libs_std = os.path.join(d, "libs_std")
     os.makedirs(libs_std, exist_ok=True)
     with open(os.path.join(libs_std, "vhdl_ls.toml"), "w") as f:
@@ -701,6 +723,10 @@ def main(tier, replay=None):
     else:
         corpus = os.path.join(VERIF, "corpus", "C03.json")
         if os.path.exists(corpus):
+            # twice: with a single analysis thread (lock-protocol defects such as F4 are deterministic then) and with the default pool
+            s, a, _ = run_harness(res, fnd, hbin, ["cases", corpus, os.path.join(d, "corpus1.out"), work, "4", "90"],
+                                  os.path.join(d, "corpus1.out"), "corpus/1-thread-analysis", 900, rayon=1)
+            summaries["corpus_single_thread"] = s
             s, a, _ = run_harness(res, fnd, hbin, ["cases", corpus, os.path.join(d, "corpus.out"), work, str(NTHREADS), "90"],
                                   os.path.join(d, "corpus.out"), "corpus", 900)
             summaries["corpus"] = s
@@ -712,7 +738,7 @@ def main(tier, replay=None):
         lsp_path = os.path.join(d, "lsp_cases.json")
         s, a, _ = run_harness(res, fnd, hbin, ["gen", str(seed()), str(ncases), str(nsteps), os.path.join(d, "gen.out"), work,
                                                str(NTHREADS), str(wd), lsp_path, str(min(ncases, 400)), str(budget)],
-                              os.path.join(d, "gen.out"), "exploration", tmo)
+                              os.path.join(d, "gen.out"), "exploration", tmo, rayon=(2 if seed() % 2 else 4))
         summaries["exploration"] = s
         arenas += a
         if os.path.exists(lsp_path):
